@@ -41,6 +41,12 @@ generated; the write-ups are `fixes/C08-indus-*.md`):
      is in process: BatchProcessor never looks at `_processing`, a second batch starts concurrently
      (`indus/batch/in-service-exceeds-limit`; known finding, `fixes/C08-indus-batch-concurrent-batches.known.md`).
 
+Constructor options varied: pooled `downstream` set / None (`nosink`), `queue_capacity` 0 (unlimited) .. 3, `cycle_time` 0;
+conveyor `capacity` 0 (unlimited) .. 3, `transit_time` 0; gate `queue_capacity` 0 .. 3, empty / zero-length / coinciding
+schedules, `initially_open`, and the public `open()` / `close()` called by a harness controller (`ctl`); batch size 1 .. 4,
+`process_time` 0, `timeout_s` 0; reneging `reneged_target` set / None (`rtarget`), `default_patience_s` inf / 0 / .., item
+patience 0, queue capacity inf / 0 / .., service time 0.
+
 Private attributes: none are read.  The harness recognises the internal event types `_GateOpen`, `_GateClose`,
 `_BatchTimeout` by their `event_type` string, and (reneging) supplies the worker subclass with its own public
 `active` counter.
@@ -181,8 +187,8 @@ def run_impl(case):
     if comp == "pooled":
         from happysimulator.components.industrial.pooled_cycle import PooledCycleResource
 
-        c = PooledCycleResource("pool", pool_size=case["pool"], cycle_time=case["cycle"] * 0.25, downstream=sink,
-                                queue_capacity=case["qcap"])
+        c = PooledCycleResource("pool", pool_size=case["pool"], cycle_time=case["cycle"] * 0.25,
+                                downstream=None if case.get("nosink") else sink, queue_capacity=case["qcap"])
         box["counters"] = lambda: f"{c.available} {c.active} {c.queued} {c.completed} {c.rejected}"
         orig = c.handle_event
 
@@ -225,6 +231,18 @@ def run_impl(case):
 
         box["counters"] = counters
         orig = c.handle_event
+
+        class Ctl(Entity):
+            """harness controller: operates the gate through its public `open()` / `close()` and schedules what
+            they return, as the docstring of GateController asks of a caller"""
+
+            def handle_event(self, ev):
+                op = ev.context["metadata"]["op"]
+                out = c.open() if op == "open" else c.close()
+                emit(op, "-")
+                return out
+
+        box["ctl"] = Ctl("ctl")
 
         def on(ev):
             if ev.event_type == "_GateOpen":
@@ -278,7 +296,7 @@ def run_impl(case):
 
             def __init__(self):
                 dp = case.get("dpat")
-                super().__init__("ren", reneged_target=rsink, default_patience_s=float("inf") if dp is None else dp * 0.25,
+                super().__init__("ren", reneged_target=rsink if case.get("rtarget", True) else None, default_patience_s=float("inf") if dp is None else dp * 0.25,
                                  policy=FIFOQueue(capacity=float("inf") if case["qcap"] is None else case["qcap"]))
                 self.active = 0
 
@@ -329,7 +347,13 @@ def run_impl(case):
     chains = [c]
     for h in range(1, 4):
         chains.append(Fwd(f"fwd{h}", chains[-1]))
-    sim = Simulation(entities=[c, sink, rsink] + chains[1:], end_time=Instant.from_seconds(END_S))
+    extra_ents = []
+    if "ctl" in box:
+        cchains = [box["ctl"]]
+        for h in range(1, 4):
+            cchains.append(Fwd(f"cfwd{h}", cchains[-1]))
+        extra_ents = cchains
+    sim = Simulation(entities=[c, sink, rsink] + chains[1:] + extra_ents, end_time=Instant.from_seconds(END_S))
 
     def arrivals():
         evs = []
@@ -339,7 +363,12 @@ def run_impl(case):
             if comp == "reneging" and r[2] is not None:
                 ev.context["patience_s"] = r[2] * 0.25
             evs.append(ev)
-        return evs
+        ctl = []
+        for t, hops, op in case.get("ctl", []) if comp == "gate" else []:
+            ev = Event(time=Instant(t * Q), event_type="CTL", target=cchains[hops])
+            ev.add_context("op", op)
+            ctl.append(ev)
+        return ctl + evs if case.get("ctl_first") else evs + ctl
 
     if comp == "gate" and case.get("sched_first", True):
         sim.schedule(c.start_events())
@@ -358,14 +387,14 @@ def run_impl(case):
 def header(case):
     comp = case["comp"]
     if comp == "pooled":
-        return f"pooled {case['pool']} {case['qcap']}"
+        return f"pooled {case['pool']} {case['qcap']}" + (" 0" if case.get("nosink") else "")
     if comp == "conveyor":
         return f"conveyor {case['cap']}"
     if comp == "gate":
         return f"gate {1 if case['init_open'] else 0} {case['qcap']}"
     if comp == "batch":
         return f"batch {case['bsize']} {case['timeout'] * Q}"
-    return f"reneging {case['limit']} {_opt(case['qcap'])}"
+    return f"reneging {case['limit']} {_opt(case['qcap'])}" + ("" if case.get("rtarget", True) else " 0")
 
 
 def model_block(case, variant):
@@ -492,6 +521,8 @@ def generate(rng, i, tier):
         cyc = rng.choice([0, 1, 2, 4, 4])
         case = {"family": "indus", "comp": comp, "pool": rng.choice([1, 1, 2, 3]), "cycle": cyc,
                 "qcap": rng.choice([0, 0, 1, 2, 3])}
+        if rng.random() < 0.25:
+            case["nosink"] = True             # downstream=None: completed items are counted and leave
         case["reqs"] = [[t, hop()] for t in _arrival_times(rng, n, [max(cyc, 1)])]
         return _pooled_safe_hops(case)
     if comp == "conveyor":
@@ -514,6 +545,12 @@ def generate(rng, i, tier):
         for t0 in _arrival_times(rng, n, [1, 2]):
             reqs.append([rng.choice(edges) + rng.choice([-1, 0, 0, 0, 1]) if rng.random() < 0.5 else t0, hop()])
         case["reqs"] = [[max(0, t0), h] for t0, h in reqs]
+        if rng.random() < 0.4:
+            # programmatic open()/close() from a controller, on / next to schedule edges and arrivals
+            spots = edges + [r[0] for r in case["reqs"]]
+            case["ctl"] = [[max(0, rng.choice(spots) + rng.choice([-1, 0, 0, 0, 1])), hop(), rng.choice(["open", "close"])]
+                           for _ in range(rng.choice([1, 2, 3]))]
+            case["ctl_first"] = rng.random() < 0.5
         return case
     if comp == "batch":
         to = rng.choice([0, 0, 1, 2, 4, 8])
@@ -526,10 +563,20 @@ def generate(rng, i, tier):
     limit = rng.choice([1, 1, 2, 3])
     svc_pool = rng.choice([[4], [1, 2, 4], [0, 1, 4], [2], [1]])
     pat_pool = rng.choice([[0, 1, 2], [2, 4], [0], [1, 3, 8], [4]])
-    case = {"family": "indus", "comp": comp, "limit": limit, "qcap": rng.choice([None, None, 1, 2, 3]),
-            "dpat": rng.choice([None, None, 2, 4])}
+    case = {"family": "indus", "comp": comp, "limit": limit, "qcap": rng.choice([None, None, 0, 1, 2, 3]),
+            "dpat": rng.choice([None, None, 0, 1, 2, 4]),
+            "rtarget": rng.random() < 0.5}    # False: reneged_target=None, reneged items are counted and discarded
     case["reqs"] = [[t, hop(), rng.choice(pat_pool + [None]), rng.choice(svc_pool)]
                     for t in _arrival_times(rng, n, svc_pool + pat_pool[:1] if pat_pool[0] else svc_pool)]
+    if rng.random() < 0.4:
+        # impatient burst: more items on one instant than slots, services longer than the patience, so that
+        # the items behind the first `limit` ones have waited too long when they are dequeued
+        t0 = rng.choice([r[0] for r in case["reqs"]])
+        svc, pat = rng.choice([2, 4, 4]), rng.choice([0, 1, 1, None])
+        if pat is None and case["dpat"] is None:
+            case["dpat"] = rng.choice([0, 1])
+        for _ in range(limit + rng.choice([1, 2, 3])):
+            case["reqs"].append([t0, hop(), pat, svc])
     return case
 
 
@@ -561,6 +608,11 @@ def shrink(case):
             c = json.loads(json.dumps(case))
             del c["sched"][i]
             yield c
+    if case["comp"] == "gate" and case.get("ctl"):
+        for i in range(len(case["ctl"])):
+            c = json.loads(json.dumps(case))
+            del c["ctl"][i]
+            yield c
     if case["comp"] == "reneging":
         for i, r in enumerate(reqs):
             if r[2] is not None:
@@ -584,7 +636,10 @@ def mutate(case, rng):
         elif c["comp"] == "pooled":
             c["pool"] = rng.choice([1, 2, 3])
         elif c["comp"] == "reneging":
-            c["limit"] = rng.choice([1, 2, 3])
+            if rng.random() < 0.5:
+                c["limit"] = rng.choice([1, 2, 3])
+            else:
+                c["rtarget"] = not c.get("rtarget", True)
         elif c["comp"] == "gate":
             c["init_open"] = not c["init_open"]
     return normalise(c)
@@ -605,6 +660,10 @@ THEOREMS: list[str] = [_NS + n for n in [
     "batch_repaired_full_batch_starts",
     "batch_current_size_one_waits",      # witness: current waits, repaired starts
     "reneging_start_iff_within_patience",
+    "reneging_exactly_one_state",        # model, reneged_target set / None: accepted = waiting + dequeued + served + reneged; served = in service + completed
+    "reneging_no_target_discards",       # model, reneged_target None: nothing is ever forwarded to a reneged sink
+    "pooled_no_downstream_forwards_nothing",
+    "judge_sound_served_xor_reneged",    # judge accepts a reneging transcript => reported served + reneged = deliveries of dequeued items so far
 ]]
 PARTIAL_THEOREMS = {
     _NS + "judge_sound_in_service": "soundness of the indus judge is proved for two clauses (concurrency limit, completed at most once); "
@@ -618,9 +677,12 @@ TRUSTED_BASE = [
     "queue entity and handle_queued_event) and the generators they return; sinks record deliveries; only public counters are printed",
     "indus: the internal event types `_GateOpen`, `_GateClose`, `_BatchTimeout` are recognised by their event_type string when they are delivered",
     "indus/reneging: the concurrency limit, `active` counter and service generator belong to a harness subclass of RenegingQueuedResource",
+    "indus/gate: programmatic open()/close() are issued by a harness controller entity that schedules the events they return",
 ]
 RULE = ("family indus: <=10 tagged items offered to one real PooledCycleResource / ConveyorBelt / GateController / BatchProcessor / "
         "RenegingQueuedResource inside a Simulation (0.25 s grid, bursts on one nanosecond, arrivals on completion instants, 0-3 "
-        "zero-time forwarder hops, pool/capacity/batch sizes 1-4, gate schedules with coinciding edges, patience 0-2 s); restrictions R1-R3 "
+        "zero-time forwarder hops, pool/capacity/batch sizes 1-4, gate schedules with coinciding edges plus programmatic open()/close() "
+        "from a controller entity, patience 0-2 s, default patience inf/0/.., reneged_target set / None, pooled downstream set / None, "
+        "waiting rooms of capacity 0; impatient bursts: more same-instant items than slots with service > patience); restrictions R1-R3 "
         "(hv/props/c08_indus.py docstring) keep three reproduced defects out of the generated inputs; non-trivial = an item waited, was "
         "refused, reneged, shared the belt or a batch of >= 2 items was processed")
